@@ -6,6 +6,7 @@ patch=$1; shift
 if [ -n "$(git -C /repo status --porcelain --untracked-files=no)" ]; then echo "/repo not clean; refusing"; exit 2; fi
 trap 'git -C /repo checkout -- . ; echo "[mutant] /repo reverted: $(git -C /repo status --porcelain --untracked-files=no | wc -l) dirty files"' EXIT
 git -C /repo apply "$patch" || { echo "patch does not apply"; exit 2; }
+export VERIF_EVIDENCE_DIR=/tmp/mutant_evidence
 for id in "$@"; do
   out=$(VERIF_WATCHDOG_S=${VERIF_WATCHDOG_S:-900} /verif/check "$id" --tier ${TIER:-quick} 2>&1); code=$?
   echo "[mutant] $(basename "$patch") $id exit=$code $(echo "$out" | grep -m1 VIOLATION)"
